@@ -158,7 +158,11 @@ def _run(a, mod, prop, tier, seed, known, workdir, t0) -> int:
             return 2
         fails = res["per_file"][path]
         rc = 0
+        seen = set()
         for f in fails:
+            if f["sig"] in seen:
+                continue
+            seen.add(f["sig"])
             kf = findings_mod.match_open(known, prop, f["sig"])
             if kf:
                 print(f"KNOWN-FINDING: property={prop} {kf.what}")
